@@ -61,6 +61,9 @@ func (e *Exec) rtIntrinsic(name string, fn *ssa.Function, args []Value) (Value, 
 	switch name {
 	case "Register":
 		return nil, true
+	case "ExactFromHex":
+		e.exactFromHex = args[0].(*Term).isTrue()
+		return nil, true
 	case "Tier":
 		return tb.BV(int64(e.tier), 64), true
 	case "NondetBool":
@@ -112,6 +115,17 @@ func (e *Exec) rtIntrinsic(name string, fn *ssa.Function, args []Value) (Value, 
 			return e.newErr("nondet:" + n), true
 		}
 		return e.nilErr(), true
+	case "NondetAddrStr":
+		n := str(0)
+		sv := e.nondetBytes(n, 6, false, true)
+		sp := e.packBytes(sv, strCap)
+		if e.abstractAddr == nil {
+			e.abstractAddr = map[int]bool{}
+		}
+		e.abstractAddr[sp.id] = true
+		valid := tb.UF("b32ok", 0, sp)
+		e.addNondet(NondetRec{Name: n + "_valid", Kind: "uint", T: tb.Ite(valid, tb.BV(1, 8), tb.BV(0, 8))})
+		return TupleV{sv, valid}, true
 	case "NondetAddr":
 		// class 0: canonical bech32 of 20 arbitrary bytes; 1: upper-case spelling; 2: a short junk
 		// string; 3: canonical spelling with one leading space. The class is a symbolic value, the
